@@ -23,7 +23,6 @@
 #undef private
 #include <functional>
 
-extern "C" mpt::metatype *verif_c_meta_buffer(const mpt::array *);
 using namespace sim;
 using namespace mpt;
 
@@ -277,8 +276,8 @@ struct RefsWorld : World {
 					uintptr_t *cnt = reinterpret_cast<uintptr_t *>(reinterpret_cast<char *>(a.buf) + sizeof(buffer) - 8 * sizeof(void *));
 					if (*cnt != 1) fail("setup", "the counter of a fresh buffer is not where the harness expects it (reads %lx)", (unsigned long) *cnt);
 					*cnt = UINTPTR_MAX;
-					bool cimpl = (op.c & 256) != 0;      // the C implementation (refs_mb.c) or the C++ one that overrides it
-					metatype *m; { Sut su; m = cimpl ? verif_c_meta_buffer(AR(a)) : mpt_meta_buffer(AR(a)); }
+					bool cimpl = sim::c_impl;      // the C implementation or the C++ one that overrides it (chosen per run, sim/kernel/cimpl_*.c)
+					metatype *m; { Sut su; m = mpt_meta_buffer(AR(a)); }
 					uintptr_t after = *cnt; *cnt = 1;
 					log.ev("LIB_NEW kind 6 on a buffer whose counter is at its maximum -> %s (counter %lx)", m ? "object" : "null", (unsigned long) after);
 					st.hit("probe:iterator_on_saturated_buffer");
@@ -288,7 +287,7 @@ struct RefsWorld : World {
 					{ Sut su; mpt_array_clone(AR(a), 0); }
 					break;
 				}
-				else if (k == 6) { CArr a = {0}; { Sut su; mpt_array_append(AR(a), 12, "hello world"); } { Sut su(failn); lib[k] = (op.c & 256) ? verif_c_meta_buffer(AR(a)) : mpt_meta_buffer(AR(a)); fired = g.fired; } { Sut su; mpt_array_clone(AR(a), 0); } }
+				else if (k == 6) { CArr a = {0}; { Sut su; mpt_array_append(AR(a), 12, "hello world"); } { Sut su(failn); lib[k] = mpt_meta_buffer(AR(a)); fired = g.fired; } { Sut su; mpt_array_clone(AR(a), 0); } }
 				else if (k == 7) { input *in; { Sut su(failn); in = mpt_output_remote(); fired = g.fired; } lib[k] = in ? static_cast<metatype *>(in) : 0; }
 				else if (k == 8 && (op.c & 512)) {
 					// the way io::socket::accept() makes its input: the descriptor is put into a local streaminfo, the input is created from
